@@ -40,6 +40,7 @@ package tenant
 //@   ensures  cut: (exists i int :: 0 <= i && i < len(orgID) && orgID[i] == ':') ==>
 //@              (exists n int :: 0 <= n && n < len(orgID) && orgID[n] == ':' && (forall j int :: 0 <= j && j < n ==> orgID[j] != ':') && result == orgID[0:n])
 //@   ensures  pre: len(result) <= len(orgID) && (forall j int :: 0 <= j && j < len(result) ==> result[j] == orgID[j] && result[j] != ':')
+//@   pure
 //@
 //@ func stringsCut
 //@   property C20
@@ -74,6 +75,8 @@ package tenant
 //@   requires tableOK()
 //@   ensures  valid: r1 == nil ==> accepted(r0)
 //@   ensures  nosep: r1 == nil ==> (forall i int :: 0 <= i && i < len(r0) ==> r0[i] != '|' && r0[i] != ':' && r0[i] != '/' && r0[i] != 92)
+//@   # single-tenant resolution: every further identifier that is passed over denotes the same tenant (metadata ignored)
+//@   loop 0 end assert same_tenant: TrimMetadata(orgID) == tenantID
 //@
 //@ func parseTenantIDs
 //@   property C20
